@@ -125,6 +125,10 @@ class BaseParser(xml.sax.ContentHandler):
         else:
             data = ''.join(self._cdata).strip()
             self._cdata = None
+            if self._position is None:
+                # no character data at all (<default></default>): the
+                # value still needs a position for error reports
+                self._position = self.get_position()
             getattr(self, "characters_" + name)(data)
 
     def endDocument(self):
